@@ -242,6 +242,11 @@ impl<T> Pool<T> {
     /// See [`PoolError`] for details.
     pub async fn timeout_get(&self, timeout: Option<Duration>) -> Result<Object<T>, PoolError> {
         let inner = self.inner.as_ref();
+        // Reserve the object up front so that `available` goes negative
+        // while callers are waiting. The guard undoes the reservation if this
+        // call ends without an object (error or cancellation).
+        let _ = inner.available.fetch_sub(1, Ordering::Relaxed);
+        let reservation = Reservation(&inner.available);
         let permit = match (timeout, inner.config.runtime) {
             (None, _) => inner
                 .semaphore
@@ -277,7 +282,7 @@ impl<T> Pool<T> {
         permit.forget();
         #[cfg(deadpool_verif)]
         crate::verif::point("uget.forgot");
-        let _ = inner.available.fetch_sub(1, Ordering::Relaxed);
+        std::mem::forget(reservation);
         #[cfg(deadpool_verif)]
         crate::verif::point("uget.avail");
         Ok(Object {
@@ -438,6 +443,16 @@ impl<T> Pool<T> {
                 0
             },
         }
+    }
+}
+
+/// Undoes the reservation a waiting caller made on `available` unless it is
+/// forgotten because the caller did get an object.
+struct Reservation<'a>(&'a AtomicIsize);
+
+impl Drop for Reservation<'_> {
+    fn drop(&mut self) {
+        let _ = self.0.fetch_add(1, Ordering::Relaxed);
     }
 }
 
